@@ -8,6 +8,7 @@ import PasskeyVerif.Driver.Ctap
 import PasskeyVerif.Driver.Auth
 import PasskeyVerif.Driver.Client
 import PasskeyVerif.Driver.Secrets
+import PasskeyVerif.Driver.U2f
 open PasskeyVerif
 
 structure DriverState where
@@ -30,6 +31,9 @@ def stepLine (st : DriverState) (line : String) : DriverState × String :=
       ({ st with au := a }, out)
     else if tok.startsWith "cl." then
       let (a, out) := Driver.Client.step st.au op impl
+      ({ st with au := a }, out)
+    else if tok.startsWith "u2f." then
+      let (a, out) := Driver.U2f.step st.au op impl
       ({ st with au := a }, out)
     else if tok = "sec.reset" || tok = "sec.end" then (st, "-\tna")
     else if tok.startsWith "sec." then (st, Driver.Secrets.step op impl)
